@@ -40,7 +40,8 @@ func c18Gen(rng *Rng, i int) c18Project {
 		// dynamic-import cycle between two entries' chunks and an asset referenced from a shared module
 		sp.Files["/s0.mjs"] += "import pic from \"./pic.png\";\nexport const picURL = pic;\n/*! legal comment of s0 */\n$(\"s0\", \"decoy\", \"" + c18Decoy + "\");\n"
 		sp.Files["/pic.png"] = "\x89PNG" + fmt.Sprint(rng.Intn(1000))
-		sp.Files["/e0.mjs"] += "export const lazyCycle = () => import(\"./cyc.mjs\");\n"
+		sp.Files["/e0.mjs"] += "export const lazyCycle = () => import(\"./cyc.mjs\");\nexport const lazyHidden = () => import(\"./.hidden.mjs\");\n"
+		sp.Files["/.hidden.mjs"] = "export const hidden = \"h\";\n$(\"hidden\");\n// plain comment in hidden\n"
 		sp.Files["/cyc.mjs"] = "export const back = () => import(\"./e0.mjs\");\n$(\"cyc\", \"" + c18Decoy2 + "\");\n// plain comment in cyc\n"
 		return c18Project{Files: sp.Files, Entries: sp.Entries, Desc: "split:" + sp.Desc}
 	}
@@ -124,6 +125,9 @@ func checkC18(r *Run) {
 		variants := []variant{{"base", func(o *api.BuildOptions) {}},
 			{"sourcemap-linked", func(o *api.BuildOptions) { o.Sourcemap = api.SourceMapLinked }},
 			{"sourcemap-external", func(o *api.BuildOptions) { o.Sourcemap = api.SourceMapExternal }},
+			{"sourcemap-inline", func(o *api.BuildOptions) { o.Sourcemap = api.SourceMapInline }},
+			{"sourcemap-both", func(o *api.BuildOptions) { o.Sourcemap = api.SourceMapInlineAndExternal }},
+			{"dot-chunk-dir", func(o *api.BuildOptions) { o.ChunkNames = ".chunks/[name]-[hash]" }},
 			{"legal-linked", func(o *api.BuildOptions) { o.LegalComments = api.LegalCommentsLinked }},
 			{"legal-external", func(o *api.BuildOptions) { o.LegalComments = api.LegalCommentsExternal }},
 			{"legal-eof", func(o *api.BuildOptions) { o.LegalComments = api.LegalCommentsEndOfFile }},
@@ -219,6 +223,12 @@ func checkC18(r *Run) {
 				check := func(kind, spec string) {
 					atomic.AddInt64(&refsChecked, 1)
 					if strings.HasPrefix(spec, "data:") {
+						return
+					}
+					if (kind == "import" || kind == "dynamic-import") && !strings.HasPrefix(spec, "./") && !strings.HasPrefix(spec, "../") && !strings.HasPrefix(spec, "/") &&
+						!(opts.PublicPath != "" && strings.HasPrefix(spec, opts.PublicPath)) {
+						// a module specifier without a leading ./ or ../ names a package, not a file next to the importer
+						viol("dangling-reference:"+kind+":bare-specifier", fmt.Sprintf("%s imports %q, a bare specifier that does not refer to a file of this build", rel, spec), nil)
 						return
 					}
 					if _, ok := emitted[resolve(spec)]; !ok {
@@ -351,7 +361,7 @@ func c18ConflictClass(a, b, ext string) string {
 	}
 	ea, va := split(a)
 	eb, vb := split(b)
-	smSet := map[string]bool{"sourcemap-linked": true, "sourcemap-external": true, "legal-linked+sourcemap": true}
+	smSet := map[string]bool{"sourcemap-linked": true, "sourcemap-external": true, "sourcemap-inline": true, "sourcemap-both": true, "legal-linked+sourcemap": true}
 	legalSet := map[string]bool{"legal-linked": true, "legal-external": true, "legal-linked+sourcemap": true}
 	legalEdit := strings.HasPrefix(ea, "legal-comment-only") || strings.HasPrefix(eb, "legal-comment-only")
 	otherEdit := func(e string) bool {
